@@ -771,4 +771,3 @@ func specAccept(n []byte, i int) byte {
 //@   props C01 C08
 //@   ensures [f] result.Header.Fin && result.Header.OpCode == OpClose && result.Header.Rsv == 0 && !result.Header.Masked && result.Header.Length == int64(len(p)) && sameSlice(result.Payload, p)
 //@   assigns nothing
-
